@@ -50,6 +50,14 @@ def render(fb, n, lets, depth=0):
             for kind, v in pieces:
                 s += v if kind == "lit" else (render(fb, v, lets, depth + 1) if v is not None else "{}")
             return s
+    if k in ("mcall", "call") and (n.get("def") or "") in fb.hir and fb.ty(n.get("t", 0)) == "std::string::String" and depth < 3:
+        # a crate helper that builds the name: render its tail expression (its parameters become {})
+        hb = fb.hir[n["def"]]["body"]
+        tail = hb.get("expr") if hb.get("k") == "block" else hb
+        if tail is not None:
+            t = render(fb, tail, lets_of(fb.hir[n["def"]]), depth + 1)
+            if t != "{}":
+                return t
     if k in ("mcall", "call") and (n.get("name") in ("as_str", "to_string", "as_ref", "into", "clone", "to_owned") or (n.get("def") or "").endswith("::from")):
         inner = n.get("recv") or (n.get("args") or [None])[0]
         if inner:
@@ -301,9 +309,17 @@ def _contains_ln(body, ln):
 
 def _norm_guards(e):
     out = set()
+    # a loop over a collection already implies that the collection is not empty: such a guard adds nothing
+    looped = set()
+    for lp in e.get("loops", []):
+        for x in lp:
+            for p_ in ("get_", "has_", "is_"):
+                if str(x).startswith(p_):
+                    x = str(x)[len(p_):]
+            looped.add(str(x))
     for g, neg in e["guards"]:
         for n in g:
-            if n.startswith("="):
+            if n.startswith("=") or n in looped:
                 continue
             n2 = {"param": "page_setup", "object_data": "page_setup", "hyperlink": None, "table": None, "macros": "has_macros"}.get(n, n)
             if n2:
